@@ -1,5 +1,6 @@
 import Properties.C01
 import Properties.C01Sites
+import Properties.C01Index
 import Properties.C01Prims
 import Properties.C01Walk
 import Properties.C01Cycle
@@ -14,11 +15,6 @@ import Properties.C01Cycle
 #print axioms Hive.C01Sites.anchors_present
 #print axioms Hive.C01Sites.reviewed_current
 #print axioms Hive.C01.upsert_perm
-#print axioms Hive.C01.modifyVehicle_perm
-#print axioms Hive.C01.modifyStation_perm
-#print axioms Hive.C01.modifyBase_perm
-#print axioms Hive.C01.modifyRequest_perm
-#print axioms Hive.C01.removeRequest_perm
 #print axioms Hive.C01.planAll_perm
 #print axioms Hive.C01.updateOrder_permEnt
 #print axioms Hive.C01.PermEnt.uniqueIds
@@ -42,3 +38,9 @@ import Properties.C01Cycle
 #print axioms Hive.C01.driverUpdates_permW
 #print axioms Hive.C01.wphase_perm
 #print axioms Hive.C01.reachable_order_independent
+#print axioms Hive.C01.index_add_eqv
+#print axioms Hive.C01.index_remove_eqv
+#print axioms Hive.C01.index_move_eqv
+#print axioms Hive.C01.modifyVehicle_permU
+#print axioms Hive.C01.modifyStation_permU
+#print axioms Hive.C01.removeRequest_permU
